@@ -117,6 +117,20 @@ def summarize_harness(res):
     return counts, failed
 
 
+def uses_env_stubs(h):
+    """harnesses stubbed with the atomics environment model / recorders cannot be replayed natively"""
+    lines = Path(h.file).read_text().splitlines()
+    for i, l in enumerate(lines):
+        if re.match(r"\s*fn %s\s*\(" % re.escape(h.id), l):
+            j = i - 1
+            while j >= 0 and (lines[j].strip().startswith("#[") or lines[j].strip().startswith("//@")):
+                if "env::" in lines[j] or "rec::" in lines[j]:
+                    return True
+                j -= 1
+            return False
+    return False
+
+
 def playback(root, h, features, pid, tier_timeout):
     """Re-run one failed harness with concrete playback, then execute the generated unit test natively
     (cargo kani playback) against the real code in the scratch copy. -> (test_code, reproduced, output)"""
@@ -308,7 +322,9 @@ def _do_check(pid, tier, only, want_playback, P, sd, seed, t0):
                 continue
             feats = r["features"]
             test_code, reproduced, pout = (None, None, "playback disabled")
-            if want_playback:
+            if want_playback and uses_env_stubs(h):
+                pout = "harness runs against the atomics environment model (stubs are not applied by concrete playback): no native replay"
+            elif want_playback:
                 root = sd / feats / "repo"
                 log("[driver] obligation failed in %s; asking Kani for a counterexample and replaying it on the real code" % h.id)
                 test_code, reproduced, pout = playback(root, h, feats, pid, timeout_s)
